@@ -61,6 +61,13 @@ class _Sem(ast.NodeTransformer):
             return _call("SELECT_T", node.args[0])
         if f == "len" and len(node.args) == 1 and not node.keywords:
             return _call("SIZE", node.args[0])
+        if isinstance(node.func, ast.Attribute) and node.func.attr in ("argmax", "argmin", "sum", "mean") and \
+                not (isinstance(node.func.value, ast.Name) and node.func.value.id in ("np", "numpy")) and \
+                (node.keywords or node.args) and all(k.arg == "axis" for k in node.keywords) and len(node.args) <= 1:
+            # X.argmax(axis=k)  ==  np.argmax(X, axis=k)
+            kws = list(node.keywords) or [ast.keyword(arg="axis", value=node.args[0])]
+            return ast.Call(func=ast.Attribute(value=ast.Name(id="np", ctx=ast.Load()), attr=node.func.attr,
+                                               ctx=ast.Load()), args=[node.func.value], keywords=kws)
         if isinstance(node.func, ast.Attribute) and node.func.attr in FLATTEN and not node.args and not node.keywords:
             return _call("FLAT", node.func.value)
         if isinstance(node.func, ast.Attribute) and node.func.attr == "reshape" and len(node.args) == 1 and \
@@ -117,8 +124,8 @@ def emptiness(test, polarity=True):
     elif isinstance(t, ast.Call) and isinstance(t.func, ast.Name) and t.func.id == "SIZE":
         subj = t.args[0]
         empty = neg
-    elif isinstance(t, ast.Name) or isinstance(t, ast.Call) and ast.unparse(t.func) in ("list", "sorted", "set",
-                                                                                       "tuple"):
+    elif isinstance(t, (ast.Name, ast.Subscript, ast.Attribute)) or isinstance(t, ast.Call) and \
+            ast.unparse(t.func) in ("list", "sorted", "set", "tuple"):
         subj = t                # truth value of a built-in container
         empty = neg
     else:
@@ -132,6 +139,10 @@ def as_index(node):
     t = sem_norm(node)
     if _is_sel(t):
         t = _call("SELECT", t.args[0])
+    # a boolean mask and the positions of its true entries select the same elements
+    if isinstance(t, ast.Call) and isinstance(t.func, ast.Name) and t.func.id == "SELECT" and \
+            isinstance(t.args[0], (ast.Compare, ast.BoolOp, ast.UnaryOp)):
+        t = t.args[0]
     return " ".join(ast.unparse(t).split())
 
 
@@ -169,12 +180,12 @@ class Env:
         for st in stmts:
             for n in ast.walk(st):
                 b = None
-                if isinstance(n, (ast.Subscript, ast.Attribute)) and isinstance(n.ctx, (ast.Store, ast.Del)):
-                    b = n.value
-                elif isinstance(n, ast.AugAssign):
+                # (stores through a local - x.attr = v, x[k] = v - do not change which object the local denotes;
+                # the environment is used to identify objects and the expressions they come from)
+                if isinstance(n, ast.AugAssign) and isinstance(n.target, ast.Name):
                     b = n.target
                 elif isinstance(n, ast.Call) and isinstance(n.func, ast.Attribute) and \
-                        n.func.attr in MUTATING_METHODS:
+                        n.func.attr in MUTATING_METHODS and n.func.attr not in ("fit", "partial_fit"):
                     b = n.func.value
                 while isinstance(b, (ast.Subscript, ast.Attribute)):
                     b = b.value
